@@ -739,6 +739,7 @@ func (w *World) Exec(a Action) {
 	case "apply":
 		if n != nil && n.up() && n.rd != nil && n.persistedHS && !n.applied {
 			n.applied = true
+			w.checkHandedOut(n, n.rd.CommittedEntries, n.rdCommitted, "committed entries")
 			w.applyEntries(n, n.rd.CommittedEntries)
 		}
 	case "advance":
@@ -789,7 +790,7 @@ func (w *World) retire(n *node) {
 	w.logf("retire %d", n.id)
 	n.disk.flush(len(n.disk.Buf))
 	n.rn, n.ms, n.rd = nil, nil, nil
-	n.appQ, n.aplQ, n.selfApp, n.selfApl, n.snapReports = nil, nil, nil, nil, nil
+	n.appQ, n.aplQ, n.selfApp, n.selfApl, n.snapReports, n.aplOrig = nil, nil, nil, nil, nil, nil
 	n.outNow, n.outAfter = nil, nil
 	n.retired = true
 	w.Stats["retired"]++
@@ -889,6 +890,7 @@ func (w *World) doReadySync(n *node) {
 	}
 	w.logf("ready(sync) %d: %d ents, %d committed, %d msgs, snap=%v hs=%v", n.id, len(rd.Entries), len(rd.CommittedEntries), len(rd.Messages), !raft.IsEmptySnap(rd.Snapshot), rd.HardState)
 	n.rd = &rd
+	n.rdEnts, n.rdCommitted = cloneEnts(rd.Entries), cloneEnts(rd.CommittedEntries)
 	n.persistedEnt, n.persistedHS, n.sent, n.applied = false, false, false, false
 	// map metas: msgs in order, then the non-self part of msgsAfterAppend
 	var out []msgMeta
@@ -907,8 +909,26 @@ func (w *World) doReadySync(n *node) {
 	w.Stats["readys-sync"]++
 }
 
+// checkHandedOut: entries that raft handed to the application (to persist or
+// to apply) belong to the application until it is done with them; raft must
+// not change them afterwards.
+func (w *World) checkHandedOut(n *node, now, orig []*pb.Entry, what string) bool {
+	if len(now) != len(orig) {
+		w.violate("C03", []string{"C18", "C01"}, "node %d: the %s handed out by raft changed length %d -> %d before the application used them", n.id, what, len(orig), len(now))
+		return false
+	}
+	for i := range now {
+		if !proto.Equal(now[i], orig[i]) {
+			w.violate("C03", []string{"C18", "C01", "C08"}, "node %d: entry %d of the %s handed out by raft was (index %d, term %d, %q) and reads (index %d, term %d, %q) when the application uses it", n.id, i, what, orig[i].GetIndex(), orig[i].GetTerm(), trunc(orig[i].GetData()), now[i].GetIndex(), now[i].GetTerm(), trunc(now[i].GetData()))
+			return false
+		}
+	}
+	return true
+}
+
 func (w *World) doPersistEnts(n *node) {
 	rd := n.rd
+	w.checkHandedOut(n, rd.Entries, n.rdEnts, "entries to persist")
 	if !raft.IsEmptySnap(rd.Snapshot) {
 		w.persistSnapshot(n, rd.Snapshot, rd.Entries, rd.HardState)
 		n.persistedEnt, n.persistedHS = true, true
@@ -969,7 +989,7 @@ func (w *World) doReadyAsync(n *node) {
 	for _, m := range rd.Messages {
 		switch m.GetTo() {
 		case raft.LocalAppendThread:
-			aw := &appendWork{msg: m}
+			aw := &appendWork{msg: m, orig: cloneEnts(m.GetEntries())}
 			resp := m.GetResponses()
 			for i, r := range resp {
 				if r.GetType() == pb.MsgStorageAppendResp {
@@ -987,6 +1007,7 @@ func (w *World) doReadyAsync(n *node) {
 			w.Stats["storage-appends"]++
 		case raft.LocalApplyThread:
 			n.aplQ = append(n.aplQ, m)
+			n.aplOrig = append(n.aplOrig, cloneEnts(m.GetEntries()))
 			w.Stats["storage-applies"]++
 		default:
 			var meta msgMeta
@@ -1019,6 +1040,7 @@ func (w *World) doAppendThread(n *node, whole bool) {
 		w.persistSnapshot(n, m.GetSnapshot(), m.GetEntries(), hsOf(m))
 	} else {
 		if !aw.written {
+			w.checkHandedOut(n, m.GetEntries(), aw.orig, "entries to persist")
 			w.persistEntries(n, m.GetEntries(), sync)
 			aw.written = true
 			if len(m.GetEntries()) > 0 && !whole {
@@ -1048,6 +1070,10 @@ func (w *World) doAppendThread(n *node, whole bool) {
 func (w *World) doApplyThread(n *node) {
 	m := n.aplQ[0]
 	n.aplQ = n.aplQ[1:]
+	if len(n.aplOrig) > 0 {
+		w.checkHandedOut(n, m.GetEntries(), n.aplOrig[0], "committed entries")
+		n.aplOrig = n.aplOrig[1:]
+	}
 	w.applyEntries(n, m.GetEntries())
 	if !n.up() {
 		return
